@@ -9,9 +9,13 @@ import (
 	"github.com/invopop/validation"
 )
 
+// ProdServPattern is the pattern of SAT item identity codes (ClaveProdServ),
+// published with the extension's definition.
+const ProdServPattern = `^[0-9]{8}$`
+
 // SAT item identity codes (ClaveProdServ) regular expression.
 var (
-	itemExtensionValidCodeRegexp        = regexp.MustCompile(`^\d{8}$`)
+	itemExtensionValidCodeRegexp        = regexp.MustCompile(ProdServPattern)
 	itemExtensionNormalizableCodeRegexp = regexp.MustCompile(`^\d{6}$`)
 )
 
